@@ -20,6 +20,15 @@ def run(tier: str, seed: int) -> int:
                       "features": {"jac": "callable", "callback": r.choice(["none", "false"]), "ftarget": "none", "gtol_callable": False,
                                    "scaler": "none", "update": "none"},
                       "override": {"maxiter": 300, "maxfun": 15000, "ftol": 0.0, "gtol": 0.0, "maxls": 20}})
+    # restarts whose start equals the checkpoint's point only up to rounding or dtype, ending before any new step is accepted
+    for i in range(n // 10):
+        s = seed * 1_000_003 + 800_000 + i
+        r = random.Random(s)
+        k = r.choice([1, 2, 3, 5])
+        cases.append({"seed": s, "monitors": ["C05"], "chain": [{"maxiter": k}, {"maxiter": r.choice([0, k, k]), "x0_kind": r.choice(["ulp", "float32"])}],
+                      "features": {"jac": r.choice(["callable", "callable", "2-point"]), "callback": "none", "ftarget": "none",
+                                   "gtol_callable": False, "scaler": "none", "update": "none"},
+                      "override": {"ftol": 0.0, "gtol": 1e-12, "maxfun": 15000, "maxls": 20}})
     return run_property(PROP, "harness.props.c05", K.THEOREMS, K.MODULES, cases, tier, seed,
                         rule=K.RULE, assumptions=K.ASSUMPTIONS)
 
